@@ -24,6 +24,7 @@ DEFAULT_RULES = ["attrs", "log", "let_chain", "opt_match", "closure_wild", "std_
 RE_METHOD = re.compile(r"no method named `(\w+)` found for (?:struct|enum|reference|mutable reference) `([^`]+)`")
 RE_ASSOC = re.compile(r"no (?:function or )?associated item named `(\w+)` found for (?:struct|enum) `([^`]+)`")
 RE_FREE = re.compile(r"cannot find function `(\w+)` in (?:this scope|module)")
+RE_VALUE = re.compile(r"cannot find value `([A-Z][A-Z0-9_]*)` in (?:this scope|module)")
 
 
 def _base(ty):
@@ -78,7 +79,27 @@ def requests(unit, diags):
         m = RE_FREE.search(msg)
         if m:
             out.append((m.group(1), None, line))
+            continue
+        m = RE_VALUE.search(msg)
+        if m:
+            out.append((m.group(1), "const", line))
     return out
+
+
+def add_const(unit, name, line, analysis):
+    """A named constant of /repo the unit did not request: extracted and placed next to its user."""
+    hit = locate(unit, name, "const")
+    caller = analysis.fn_at(line) if line else None
+    if hit is None or caller is None:
+        return False
+    f, it = hit
+    key = f"const.{f}::{name}"
+    if any(key in b for _c, b in unit.helper_blocks):
+        return False
+    ex = vxlib.run_vx([{"key": key, "file": f, "modpath": it["modpath"], "kind": "const", "name": name, "rules": ["attrs", "const_static"]}])[key]
+    unit.helper_blocks.append((caller, f"    // R28: constant `{name}` located in {f} ({key})\n" + "\n".join("    " + ln for ln in ex["text"].rstrip().split("\n")) + "\n"))
+    unit.rules_fired["helper_const"] = unit.rules_fired.get("helper_const", 0) + 1
+    return True
 
 
 def locate(unit, name, ty):
@@ -104,7 +125,9 @@ def locate(unit, name, ty):
         for it in vxlib.vx_list(f):
             if ty is None and it["kind"] == "fn" and it["name"] == name:
                 hits.append((f, it))
-            if ty is not None and it["kind"] == "impl" and it["trait_"] == "" and _base(it["self_ty"]) == ty and name in it["fns"]:
+            if ty == "const" and it["kind"] == "const" and it["name"] == name:
+                hits.append((f, it))
+            if ty not in (None, "const") and it["kind"] == "impl" and it["trait_"] == "" and _base(it["self_ty"]) == ty and name in it["fns"]:
                 hits.append((f, it))
     if len(hits) != 1:
         return None
@@ -113,6 +136,8 @@ def locate(unit, name, ty):
 
 def add_helper(unit, name, ty, line, analysis, opts=None):
     """Extract + emit one helper next to its caller. Returns False when it cannot be located."""
+    if ty == "const":
+        return add_const(unit, name, line, analysis)
     hit = locate(unit, name, ty)
     if hit is None:
         return False
